@@ -2,7 +2,7 @@ from common import Ctx, RULES
 from legs import run_classified_leg
 
 PID = "C11"
-COQ_FILES = ["Model/Base.v", "Model/BpSpec.v", "Model/BpMachine.v", "Proofs/BpMachineProofs.v", "Properties/C11.v"]
+COQ_FILES = ["Model/Base.v", "Model/BpSpec.v", "Model/BpMachine.v", "Proofs/BpMachineProofs.v", "Gen/Bp.v", "Ties/BpTie.v", "Properties/C11.v"]
 RULES[PID] = ("e2e leg, two families, every history in a forked child with a watchdog. (1) world histories on a fixed debuggee (0 or 3 worker threads, optional "
               "wait-for-flag-file mode): the full grid launched/attached x single/multi-threaded x stop kind (not started or just attached, at a breakpoint "
               "with a hardware watchpoint armed, after stepi, after exit) x ending (drop, detach + drop), then random fill, then a stress tail (40 quick / 300 thorough attached 3-thread histories ending at a breakpoint or after stepi, run while spinner threads keep all cores busy so that traps raised but not yet reported exist at the moment of release); attached = the harness "
